@@ -7,7 +7,9 @@ WINDOWS = [1, 2, 3, 5, 8, 16, 255]
 
 def draw_kernel(rng):
     return {'read_cost_ns': rng.choice([200, 1000, 1000, 2000, 5000]),
-            'lmax_ns': rng.choice([5_000, 50_000, 50_000, 500_000, 2_000_000])}
+            'lmax_ns': rng.choice([5_000, 50_000, 50_000, 500_000, 2_000_000]),
+            # schedule fault: probability that a thread woken through a queue runs at once while the waker is pre-empted right after put()
+            'eager_wake': rng.choice([0, 0, 0, 0.3, 1.0])}
 
 
 def draw_latency(rng, allow_zero=True, names=()):
@@ -96,9 +98,13 @@ def simplify_env(scn):
         c['latency'] = {'kind': 'const', 'ns': 100_000}
         yield c
     k = scn.get('kernel') or {}
+    if k.get('eager_wake'):
+        c = copy.deepcopy(scn)
+        c['kernel'] = dict(k, eager_wake=0)
+        yield c
     if k.get('lmax_ns', 50_000) != 5_000 or k.get('read_cost_ns', 1000) != 1000:
         c = copy.deepcopy(scn)
-        c['kernel'] = {'read_cost_ns': 1000, 'lmax_ns': 5_000}
+        c['kernel'] = {'read_cost_ns': 1000, 'lmax_ns': 5_000, 'eager_wake': k.get('eager_wake', 0)}
         yield c
 
 
